@@ -1,6 +1,6 @@
 /-
 C14 — helper lemmas, part 5: restricting every scan to the offered columns (`Backend.proj`) yields environments that
-agree with the unrestricted ones on every element in scope (`SimEnv`), hence the same rows for inner-join statements
+agree with the unrestricted ones on every element in scope (`SimEnv`), hence the same rows for all statements
 whenever the query post-processing is local (`FinishLocal`).  Used by `ForML.Props.C14` (`C14_equivalence_partial`).
 -/
 import ForML.Lemmas.C14Filter
@@ -150,28 +150,28 @@ theorem simEnv_single {F : List Feature} {o : Source} {cols : List String} (r : 
 theorem elemsAll_append (F G : List Feature) (el : Elem) : el ∈ elemsAll (F ++ G) ↔ el ∈ elemsAll F ∨ el ∈ elemsAll G := by
   simp [elemsAll, List.flatMap_append]
 
-/-- **Restricting every scan to the offered columns does not change what a statement yields** (any join kind), provided
-the query post-processing only looks at the elements the query mentions. -/
-theorem shaped_of_wellScoped : ∀ (s : Source), wellScoped s = true → shaped s = true
+theorem shaped_of_grammarScoped : ∀ (s : Source), grammarScoped s = true → shaped s = true
   | .table _ _, _ => rfl
   | .ref i _, h => by
-    simp only [wellScoped, Bool.and_eq_true] at h
-    simp [shaped, h.1, shaped_of_wellScoped i h.2]
+    simp only [grammarScoped, Bool.and_eq_true] at h
+    simp [shaped, h.1, shaped_of_grammarScoped i h.2]
   | .join l r _ _, h => by
-    simp only [wellScoped, Bool.and_eq_true] at h
-    simp [shaped, shaped_of_wellScoped l h.1, shaped_of_wellScoped r h.2]
+    simp only [grammarScoped, Bool.and_eq_true] at h
+    simp [shaped, shaped_of_grammarScoped l h.1, shaped_of_grammarScoped r h.2]
   | .set l r _, h => by
-    simp only [wellScoped, Bool.and_eq_true] at h
-    simp [shaped, h.1.1.1, h.1.1.2, shaped_of_wellScoped l h.1.2, shaped_of_wellScoped r h.2]
+    simp only [grammarScoped, Bool.and_eq_true] at h
+    simp [shaped, h.1.1.1, h.1.1.2, shaped_of_grammarScoped l h.1.2, shaped_of_grammarScoped r h.2]
   | .query src _ _ _ _ _ _, h => by
-    simp only [wellScoped, Bool.and_eq_true] at h
-    simpa [shaped] using shaped_of_wellScoped src h.2
+    simp only [grammarScoped, Bool.and_eq_true] at h
+    simpa [shaped] using shaped_of_grammarScoped src h.2
 
-theorem run_proj (len : Bool) (S : Sem) (B : Backend) (db : Db) (hS : FinishLocal S) :
+/-- **Restricting every scan to the offered columns does not change what a statement yields** (any join kind, both
+variants of the parser), provided the query post-processing only looks at the elements the query mentions. -/
+theorem run_proj (fix len : Bool) (S : Sem) (B : Backend) (db : Db) (hS : FinishLocal S) :
     ∀ (s : Source), shaped s = true →
-      (∀ (F : List Feature) (st : Segs), Covers st F →
-          Forall2 (SimEnv F) (run len S B.proj db s st).envs (run len S B db s st).envs)
-      ∧ (isStmt s = true → ∀ st, (run len S B.proj db s st).envs = (run len S B db s st).envs)
+      (∀ (F : List Feature) (st : Segs), Covers fix st F →
+          Forall2 (SimEnv F) (run fix len S B.proj db s st).envs (run fix len S B db s st).envs)
+      ∧ (isStmt s = true → ∀ st, (run fix len S B.proj db s st).envs = (run fix len S B db s st).envs)
   | .table n fs, _ => by
     refine ⟨?_, by simp [isStmt]⟩
     intro F st hc
@@ -180,37 +180,36 @@ theorem run_proj (len : Bool) (S : Sem) (B : Backend) (db : Db) (hS : FinishLoca
     refine simEnv_single r (fun el hel ho => ?_)
     exact mem_hint_cols (by
       have := hc el hel (by simp [ho, inst, isTable])
-      simpa [ho, inst] using this)
+      simpa [ho] using this)
   | .ref i nm, hw => by
     refine ⟨?_, by simp [isStmt]⟩
     intro F st hc
     simp only [shaped, Bool.and_eq_true, Bool.or_eq_true] at hw
-    rcases hw.1 with ht | hs
-    · cases i with
-      | table n fs =>
-        simp only [run, Backend.proj, List.map_map]
-        refine Forall2.map_same _ _ _ (fun r => ?_)
-        simp only [Function.comp, rebind, firstRow]
-        refine simEnv_single r (fun el hel ho => ?_)
-        exact mem_hint_cols (by
-          have := hc el hel (by simp [ho, inst, isTable])
-          simpa [ho, inst] using this)
-      | _ => simp [isTable] at ht
-    · simp only [run]
-      rw [(run_proj len S B db hS i hw.2).2 hs st]
-      exact Forall2.refl' (SimEnv.refl F) _
+    simp only [run]
+    by_cases ht : isTable i = true
+    · simp only [ht, if_true, Backend.proj, List.map_map]
+      refine Forall2.map_same _ _ _ (fun r => ?_)
+      refine simEnv_single r (fun el hel ho => ?_)
+      exact mem_hint_cols (by
+        have := hc el hel (by simp [ho, inst, ht])
+        simpa [ho] using this)
+    · simp only [ht, Bool.false_eq_true, if_false]
+      rcases hw.1 with ht' | hs
+      · exact absurd ht' ht
+      · rw [(run_proj fix len S B db hS i hw.2).2 hs st]
+        exact Forall2.refl' (SimEnv.refl F) _
   | .join l r k c, hw => by
     refine ⟨?_, by simp [isStmt]⟩
     intro F st hc
     simp only [shaped, Bool.and_eq_true] at hw
-    have hc1 : Covers (st.filterOpt len c) (F ++ optList c) :=
-      covers_append (covers_mono hc (filterOpt_mono len st c)) (covers_filterOpt len st c)
-    have iha := (run_proj len S B db hS l hw.1).1 _ _ hc1
-    have hst : (run len S B.proj db l (st.filterOpt len c)).st = (run len S B db l (st.filterOpt len c)).st :=
-      (run_indep len S S B.proj B db db l _).1
-    have hc2 : Covers (run len S B db l (st.filterOpt len c)).st (F ++ optList c) :=
-      covers_mono hc1 (run_cols len S B db l (F ++ optList c) _ hc1).2
-    have ihb := (run_proj len S B db hS r hw.2).1 _ _ hc2
+    have hc1 : Covers fix (joinCtx fix len st l r k c) (F ++ optList c) :=
+      covers_append (covers_mono hc (joinCtx_mono fix len st l r k c)) (covers_joinCtx fix len st l r k c)
+    have iha := (run_proj fix len S B db hS l hw.1).1 _ _ hc1
+    have hst : (run fix len S B.proj db l (joinCtx fix len st l r k c)).st = (run fix len S B db l (joinCtx fix len st l r k c)).st :=
+      (run_indep fix len S S B.proj B db db l _).1
+    have hc2 : Covers fix (run fix len S B db l (joinCtx fix len st l r k c)).st (F ++ optList c) :=
+      covers_mono hc1 (run_cols fix len S B db l (F ++ optList c) _ hc1).2
+    have ihb := (run_proj fix len S B db hS r hw.2).1 _ _ hc2
     simp only [run]
     rw [hst]
     -- the ON condition evaluates alike on related environments
@@ -225,23 +224,23 @@ theorem run_proj (len : Bool) (S : Sem) (B : Backend) (db : Db) (hS : FinishLoca
       fun h => h.mono (fun e' e he => he.mono (fun el hel => (elemsAll_append _ _ _).mpr (Or.inl hel)))
     -- matches of one left / one right row
     have hml : ∀ el' el, SimEnv (F ++ optList c) el' el → Forall2 (SimEnv (F ++ optList c))
-        ((List.map (fun er => el' ++ er) (run len S B.proj db r (run len S B db l (st.filterOpt len c)).st).envs).filter
+        ((List.map (fun er => el' ++ er) (run fix len S B.proj db r (run fix len S B db l (joinCtx fix len st l r k c)).st).envs).filter
           (fun e => holdsOpt S e c))
-        ((List.map (fun er => el ++ er) (run len S B db r (run len S B db l (st.filterOpt len c)).st).envs).filter
+        ((List.map (fun er => el ++ er) (run fix len S B db r (run fix len S B db l (joinCtx fix len st l r k c)).st).envs).filter
           (fun e => holdsOpt S e c)) :=
       fun el' el hl => (ihb.map _ _ (fun er' er hr => hl.append hr)).filter _ _ hon
     have hmr : ∀ er' er, SimEnv (F ++ optList c) er' er → Forall2 (SimEnv (F ++ optList c))
-        ((List.map (fun el => el ++ er') (run len S B.proj db l (st.filterOpt len c)).envs).filter (fun e => holdsOpt S e c))
-        ((List.map (fun el => el ++ er) (run len S B db l (st.filterOpt len c)).envs).filter (fun e => holdsOpt S e c)) :=
+        ((List.map (fun el => el ++ er') (run fix len S B.proj db l (joinCtx fix len st l r k c)).envs).filter (fun e => holdsOpt S e c))
+        ((List.map (fun el => el ++ er) (run fix len S B db l (joinCtx fix len st l r k c)).envs).filter (fun e => holdsOpt S e c)) :=
       fun er' er hr => (iha.map _ _ (fun el' el hl => hl.append hr)).filter _ _ hon
     have leftPart := iha.flatMap
-      (fun el' => if ((List.map (fun er => el' ++ er) (run len S B.proj db r (run len S B db l (st.filterOpt len c)).st).envs).filter
+      (fun el' => if ((List.map (fun er => el' ++ er) (run fix len S B.proj db r (run fix len S B db l (joinCtx fix len st l r k c)).st).envs).filter
           (fun e => holdsOpt S e c)).isEmpty then [el' ++ nullEnv (origins r)]
-        else (List.map (fun er => el' ++ er) (run len S B.proj db r (run len S B db l (st.filterOpt len c)).st).envs).filter
+        else (List.map (fun er => el' ++ er) (run fix len S B.proj db r (run fix len S B db l (joinCtx fix len st l r k c)).st).envs).filter
           (fun e => holdsOpt S e c))
-      (fun el => if ((List.map (fun er => el ++ er) (run len S B db r (run len S B db l (st.filterOpt len c)).st).envs).filter
+      (fun el => if ((List.map (fun er => el ++ er) (run fix len S B db r (run fix len S B db l (joinCtx fix len st l r k c)).st).envs).filter
           (fun e => holdsOpt S e c)).isEmpty then [el ++ nullEnv (origins r)]
-        else (List.map (fun er => el ++ er) (run len S B db r (run len S B db l (st.filterOpt len c)).st).envs).filter
+        else (List.map (fun er => el ++ er) (run fix len S B db r (run fix len S B db l (joinCtx fix len st l r k c)).st).envs).filter
           (fun e => holdsOpt S e c))
       (R' := SimEnv (F ++ optList c)) (fun el' el hl => by
         have hm := hml el' el hl
@@ -274,20 +273,20 @@ theorem run_proj (len : Bool) (S : Sem) (B : Backend) (db : Db) (hS : FinishLoca
       rw [(hmr er' er hr).isEmpty_eq]
   | .set l r k, hw => by
     simp only [shaped, Bool.and_eq_true] at hw
-    have heq : ∀ st, (run len S B.proj db (.set l r k) st).envs = (run len S B db (.set l r k) st).envs := by
+    have heq : ∀ st, (run fix len S B.proj db (.set l r k) st).envs = (run fix len S B db (.set l r k) st).envs := by
       intro st
       simp only [run]
-      rw [(run_proj len S B db hS l hw.1.2).2 hw.1.1.1 st, (run_indep len S S B.proj B db db l st).1,
-        (run_proj len S B db hS r hw.2).2 hw.1.1.2 _]
+      rw [(run_proj fix len S B db hS l hw.1.2).2 hw.1.1.1 st, (run_indep fix len S S B.proj B db db l st).1,
+        (run_proj fix len S B db hS r hw.2).2 hw.1.1.2 _]
     exact ⟨fun F st _ => heq st ▸ Forall2.refl' (SimEnv.refl F) _, fun _ => heq⟩
   | .query src sel pre grp post ord rows, hw => by
     simp only [shaped] at hw
-    have heq : ∀ st, (run len S B.proj db (.query src sel pre grp post ord rows) st).envs =
-        (run len S B db (.query src sel pre grp post ord rows) st).envs := by
+    have heq : ∀ st, (run fix len S B.proj db (.query src sel pre grp post ord rows) st).envs =
+        (run fix len S B db (.query src sel pre grp post ord rows) st).envs := by
       intro st
       simp only [run]
-      have hp := (run_proj len S B db hS src hw).1 (queryFeatures src sel pre grp post ord)
-        (queryCtx len st.err src sel pre grp post ord) (covers_queryCtx len st.err src sel pre grp post ord)
+      have hp := (run_proj fix len S B db hS src hw).1 (queryFeatures src sel pre grp post ord)
+        (queryCtx fix len st.err src sel pre grp post ord) (covers_queryCtx fix len st.err src sel pre grp post ord)
       have hk := hp.filter (fun e => holdsOpt S e pre) (fun e => holdsOpt S e pre) (by
         intro e' e he
         cases pre with
